@@ -2,8 +2,10 @@
 //
 // Bounded-exhaustive model checking on the real engines: for every (min, max|absent, limit) in
 // {0,1,2,3,65535,65536}^3 that is a valid declaration x capacity-from-max x {Go allocator, four custom
-// experimental.MemoryAllocator behaviours} x {local, imported memory} x {unshared, shared} x {interpreter, compiler}, an explicit-state BFS
-// over grow histories (guest memory.grow — plain and fused with loads in one function —, host Memory.Grow;
+// experimental.MemoryAllocator behaviours} x {local exported, local not exported, imported memory} x {unshared, shared} x {interpreter, compiler}, an explicit-state BFS
+// over grow histories (guest memory.grow — plain and fused with loads in one function —, host Memory.Grow,
+// and NESTED requests: a guest function that accesses memory, calls/call_indirects a host or guest function that
+// grows the memory, and accesses memory again;
 // delta alphabet {0,1,2,bound-cur,bound-cur+1,max-cur,max-cur+1,65535,65536,2^31,2^32-1}; depth <= 3)
 // is executed. In EVERY state the implementation is compared with an integer reference model:
 // memory.size / memory.grow(0) in every module, Memory.Size(), Memory.Grow(0); every host accessor at
@@ -462,11 +464,12 @@ func main() {
 		"configurations":           len(cfgs),
 		"configurations_multi_GiB": len(huge),
 		"configurations_with_resident_multi_GiB_buffers(max 4 at a time)": len(heavy),
-		"engines":        engines,
-		"sources":        "local: guest, guestf(fused), host; imported: guest(owner), iguest, iguestf(importer), host",
-		"delta_alphabet": "0,1,2,bound-cur,bound-cur+1,max-cur,max-cur+1,65535,65536,2^31,2^32-1",
-		"history_depth":  tier.Depth,
-		"state_key":      map[bool]string{false: "(pages, capacity)", true: "(pages, capacity, source of last successful grow)"}[tier.KeyLastSrc],
+		"engines":           engines,
+		"sources":           "local: guest, guestf(fused), host; imported: guest(owner), iguest, iguestf(importer), host; nested (grow inside a call made between memory accesses of one guest function): callee in {imported host function using Module.Memory().Grow, local function using memory.grow} x {call, call_indirect}, from the importing module also the imported grow function of the defining module x {call, call_indirect}",
+		"delta_alphabet":    "0,1,2,bound-cur,bound-cur+1,max-cur,max-cur+1,65535,65536,2^31,2^32-1; nested sources: 0,1,bound-cur,bound-cur+1 (+ refusal threshold)",
+		"memory_visibility": "local memories: exported and not exported (private twin of every local configuration); imported",
+		"history_depth":     tier.Depth,
+		"state_key":         map[bool]string{false: "(pages, capacity)", true: "(pages, capacity, source of last successful grow)"}[tier.KeyLastSrc],
 		"huge_realloc_rule": map[string]string{
 			"quick":    "Go-allocator reallocation to >=65535 pages: 2 transitions (compiler; min=1, max absent; local limit=65535 by the fused guest function, imported limit=65536 by the host); resulting states are leaves",
 			"thorough": "from every initial state straight to the bound, by the host or by the fused guest function (fixed parity of the configuration); for (min=1, max absent) declarations by every source and the resulting states are expanded; elsewhere resulting states are leaves",
